@@ -466,6 +466,17 @@ func (ms *Modules) Process() []error {
 	for _, m := range mods {
 		ToEntry(m).Augment(true)
 	}
+	// An augment whose path leads through an implied case finds its target
+	// only now that the cases are there; what it adds to a choice needs
+	// its own implied case in turn.
+	if len(mods) > 0 {
+		for _, m := range ms.Modules {
+			ToEntry(m).FixChoice()
+		}
+		for _, m := range ms.SubModules {
+			ToEntry(m).FixChoice()
+		}
+	}
 
 	// Augmentation records its errors (a target that was never found, a
 	// node that already exists in the target) on entries of whichever
